@@ -292,6 +292,11 @@ def _analyze_history(hist):
     text = _text_of(TEXTS[t])
     ms = scan_file(lex(lexer, text, False), Languages.by_name[lexer.__class__.name])
     alone = (lexer.__class__.name, sum(m.value for m in ms), _sig(ms))
+    # positions are those of the FILE's text (leading blank lines, CRLF, non-ASCII included): the real lex() must place every token where the text has it
+    from vlib import skel
+    sk = skel.Skeleton(["Python", "JavaScript", "TypeScript", "Java", "C", "Cpp", "CSharp"][e], None, "file", text=text)
+    if sk.lex_mismatch:
+        alone = ("lex() places a token elsewhere than the text does", sk.lex_mismatch)
     return res, alone
 
 
